@@ -79,16 +79,21 @@ def make_esf(sym, process="NC", extra=None):
 _IN_ORDER_CALL = set()
 
 
-def _provenance(ev, fv, args, kwargs):
-    """Annotate every RSL returned by an order method with the class of the channel instance that produced it."""
-    fi = fv.finfo
-    if fi.name == "__init__" and fi.cls is not None and fi.cls.name == "Kernel" and len(args) >= 2:
-        # Kernel(partons, coeff): keep the pairing of weights and partonic channel for rules that inspect it
+def _kernel_listener(ev, cinfo, obj):
+    """Kernel(partons, coeff) - however the class builds its instances (hand-written __init__, dataclass, keywords): keep the pairing of
+    weights and partonic channel for the rules that inspect it (C06.flow, C08.mass, C09.mass)."""
+    if cinfo.name == "Kernel" and "partons" in obj.attrs and "coeff" in obj.attrs:
         log = getattr(ev, "kernel_log", None)
         if log is None:
             log = ev.kernel_log = []
-        log.append((args[0], args[1]))
-        return NotImplemented
+        log.append((obj.attrs["partons"], obj.attrs["coeff"]))
+
+
+def _provenance(ev, fv, args, kwargs):
+    """Annotate every RSL returned by an order method with the class of the channel instance that produced it."""
+    fi = fv.finfo
+    if getattr(ev, "instance_listener", None) is None:
+        ev.instance_listener = _kernel_listener
     inst = fv.bound if isinstance(fv.bound, S.ObjVal) else getattr(fv, "via", None)
     if fi.name in ORDER_METHODS and isinstance(inst, S.ObjVal) and inst.cinfo is not None:
         key = (id(inst), fi.name, id(fi))
